@@ -211,3 +211,136 @@ def run_terminators(prog, res, cfg, reachable):
                         "ordinary severity/exit status" % fnm, assume=allowed.get(key))
     res.info["r3_terminator_sites"] = n
     return n
+
+
+def run_strncpy_terminated(prog, res, cfg, reachable, rule="E2t.strncpy_terminated"):
+    """strncpy( dst, src, N ) leaves dst without a terminator when src has N or more characters; what reads dst as a string
+    afterwards runs past the copied bytes (into the uninitialised rest of the array and beyond).  For every call whose
+    destination is a fixed char array and whose size argument is a constant, one of these must hold:
+      * a store `dst[K] = 0` with constant K <= N is passed on every path from the call to the next use of dst;
+      * the array was zero-filled by its declaration (`char b[S] = ..`) and N < S (the last byte stays 0), with no other store to it;
+      * src is a string literal shorter than N;
+      * src is built from schema identifiers (table ident_fns): discharged under the identifier-length assumption when N
+        exceeds the identifier length L* the E2 sites already assume (recorded as assumption, not as a pass)."""
+    from ir import walk, strip, array_len, expr_str
+    from engines import call_args, is_null_const
+    ident = cfg.get("ident_fns", set())
+    n = 0
+    counters = {}
+    for f in prog.all_functions():
+        if f.component == "test" or f.key not in reachable or f.cfg is None:
+            continue
+        if any(f.file.endswith(x) for x in cfg.get("exclude_files", ())):
+            continue
+        for c in f.calls():
+            if (c.get("fn") or "") not in ("strncpy", "__builtin_strncpy", "__builtin___strncpy_chk"):
+                continue
+            a = call_args(c)
+            if len(a) < 3:
+                continue
+            dst = strip(a[0])
+            while dst is not None and dst["k"] == "Cast":
+                dst = strip(dst["ch"][0])
+            if dst is None or dst["k"] not in ("Ref", "Member"):
+                continue
+            S = array_len(f.ty(dst))
+            N = strip(a[2]).get("val") if strip(a[2]) is not None else None
+            if not S or not isinstance(N, int):
+                continue
+            n += 1
+            base = "E2t|%s|%s|strncpy->%s" % (f.relfile(), f.name, dst.get("n"))
+            k0 = counters.get(base, 0)
+            counters[base] = k0 + 1
+            key = base if k0 == 0 else "%s#%d" % (base, k0)
+            dkey = dst.get("d") or dst.get("q")
+
+            def same(x):
+                x = strip(x)
+                while x is not None and x["k"] == "Cast":
+                    x = strip(x["ch"][0])
+                return x is not None and x["k"] in ("Ref", "Member") and (x.get("d") or x.get("q")) == dkey
+
+            def term_store(e):
+                for y in walk(e):
+                    if y["k"] == "Assign" and strip(y["ch"][0]) is not None and strip(y["ch"][0])["k"] == "Subscript":
+                        sb = strip(y["ch"][0])
+                        idx = strip(sb["ch"][1])
+                        if same(sb["ch"][0]) and idx is not None and isinstance(idx.get("val"), int) and idx["val"] <= N and \
+                                (is_null_const(y["ch"][1]) or (strip(y["ch"][1]) or {}).get("val") == 0):
+                            return True
+                return False
+            src = strip(a[1])
+            while src is not None and src["k"] == "Cast":
+                src = strip(src["ch"][0])
+            why = None
+            assume = None
+            if src is not None and src["k"] == "Str" and len(src.get("s", "")) < N:
+                why = "the source literal has %d characters, fewer than the size argument %d" % (len(src["s"]), N)
+            if why is None and N < S:
+                # zero-filled by its declaration and never stored to above N
+                decl = [y for y in f.walk() if y["k"] == "Var" and y.get("d") == dkey and y.get("ch") and y["ch"][0] is not None]
+                other = [y for y in f.walk() if y["k"] == "Assign" and strip(y["ch"][0]) is not None and strip(y["ch"][0])["k"] == "Subscript" and
+                         same(strip(y["ch"][0])["ch"][0]) and not is_null_const(y["ch"][1])]
+                if decl and not other:
+                    why = "the array is zero-filled by its declaration and at most %d of its %d bytes are overwritten" % (N, S)
+            if why is None:
+                # every path from the call to a later use of dst passes a terminating store
+                pos = f.cfg.locate(c)
+                uses = [y for y in f.walk() if y["k"] in ("Ref", "Member") and (y.get("d") or y.get("q")) == dkey and f.cfg.locate(y) is not None
+                        and f.cfg.locate(y) != pos and not any(term_store(z) for z in [f.nodes.get(f.cfg.blocks[f.cfg.locate(y)[0]]["e"][f.cfg.locate(y)[1]])] if z is not None)]
+                bad = [y for y in uses if f.cfg.reaches(pos, f.cfg.locate(y), term_store)]
+                escapes = dst["k"] == "Member" or dst.get("dk") in ("global", "staticlocal", "param")
+                if not bad and not escapes:
+                    why = "a store of 0 at an index <= %d is passed before the array is used again" % N
+                elif not bad and escapes and any(f.cfg.postdominates(f.cfg.locate(y), pos) for y in f.walk()
+                                                 if y["k"] == "Assign" and term_store(y) and f.cfg.locate(y) is not None):
+                    why = "a store of 0 at an index <= %d follows on every path" % N
+            if why is None and N < S and dst["k"] == "Ref" and dst.get("dk") in ("global", "staticlocal"):
+                # static storage is zero-initialised: the bytes from N on stay 0 unless something else stores there
+                other = []
+                for g in prog.all_functions():
+                    for y in g.walk():
+                        if y["k"] == "Assign" and strip(y["ch"][0]) is not None and strip(y["ch"][0])["k"] == "Subscript":
+                            sb = strip(y["ch"][0])
+                            b0 = strip(sb["ch"][0])
+                            if b0 is not None and b0["k"] == "Ref" and b0.get("n") == dst.get("n") and b0.get("dk") == dst.get("dk"):
+                                idx = strip(sb["ch"][1])
+                                zero = is_null_const(y["ch"][1]) or (strip(y["ch"][1]) or {}).get("val") == 0
+                                if not zero and not (idx is not None and isinstance(idx.get("val"), int) and idx["val"] < N):
+                                    other.append(g.name)
+                        if y["k"] == "Call" and (y.get("fn") or "") in ("strcpy", "strcat", "sprintf", "memcpy", "memset", "strncat") and call_args(y) and \
+                                strip(call_args(y)[0]) is not None and strip(call_args(y)[0]).get("n") == dst.get("n") and strip(call_args(y)[0]).get("dk") == dst.get("dk"):
+                            other.append(g.name)
+                if not other:
+                    why = "the array has static storage (zero-initialised), at most %d of its %d bytes are ever overwritten by strncpy and nothing else stores a non-zero byte from index %d on" % (N, S, N)
+            if why is None and dst["k"] == "Member" and dst.get("q"):
+                # a member array: every constructor of the class stores 0 at an index K with N <= K < S, and nothing stores there again
+                cls = dst["q"].rsplit("::", 1)[0]
+                ctors = [g for g in prog.all_functions() if g.name == "%s::%s" % (cls, cls.split("::")[-1]) and g.raw.get("body") is not None]
+                def ctor_terminates(g):
+                    for y in g.walk():
+                        if y["k"] == "Assign" and strip(y["ch"][0]) is not None and strip(y["ch"][0])["k"] == "Subscript":
+                            sb = strip(y["ch"][0])
+                            b0 = strip(sb["ch"][0])
+                            idx = strip(sb["ch"][1])
+                            if b0 is not None and b0.get("q") == dst["q"] and idx is not None and isinstance(idx.get("val"), int) and N <= idx["val"] < S and \
+                                    (is_null_const(y["ch"][1]) or (strip(y["ch"][1]) or {}).get("val") == 0):
+                                return True
+                    return False
+                if ctors and all(ctor_terminates(g) for g in ctors):
+                    why = "every constructor of %s stores 0 at an index in [%d, %d) of the member and strncpy never reaches it" % (cls, N, S)
+            if why is None and src is not None:
+                names = {y.get("fn") for y in walk(src) if y["k"] == "Call"} | {y.get("n") for y in walk(src) if y["k"] == "Member"}
+                if names & set(ident) or (src["k"] == "Ref" and src.get("dk") == "param" and f.component in cfg.get("param_is_ident_components", ())):
+                    lstar = cfg.get("lstar_floor")
+                    if lstar is not None and N > lstar:
+                        why = "the source is built from schema identifiers"
+                        assume = "schema identifiers are at most %s bytes long" % lstar
+            ok = why is not None
+            res.add(rule, key, f.where(c), ok,
+                    "strncpy into %s[%d] with size %d: %s" % (dst.get("n"), S, N, why) if ok else
+                    "strncpy( %s, %s, %d ) into %s[%d]: a source of %d or more characters leaves the array without a terminator, and no store of 0 "
+                    "is passed before %s is read as a string" % (dst.get("n"), expr_str(src)[:40] if src is not None else "?", N, dst.get("n"), S, N, dst.get("n")),
+                    assume=assume)
+    res.info["e2t_strncpy_sites"] = n
+    return n
